@@ -57,7 +57,14 @@ def gen_table(rng):
         kinds.append(rng.choice(['int', 'str', 'date', 'decimal', 'amount', 'amount', 'position', 'position', 'inventory', 'inventory', 'bool', 'set']))
     dtypes = {'int': int, 'str': str, 'date': datetime.date, 'decimal': Decimal, 'amount': amount.Amount, 'position': position.Position,
               'inventory': inventory.Inventory, 'bool': bool, 'set': set}
-    desc = tuple(Column(f'c{i}_{k}', dtypes[k]) for i, k in enumerate(kinds))
+    names = [f'c{i}_{k}' for i, k in enumerate(kinds)]
+    if rng.random() < 0.25:
+        # columns of equal name and datatype (SELECT a AS x, b AS x): every one is still converted from its own cells. (An
+        # amount column right after another one keeps a name of its own: the output columns of the two could not be told apart.)
+        for i, k in enumerate(kinds):
+            if i == 0 or k not in ('amount', 'position', 'inventory') or kinds[i - 1] not in ('amount', 'position', 'inventory'):
+                names[i] = f'x_{k}'
+    desc = tuple(Column(names[i], dtypes[k]) for i, k in enumerate(kinds))
     nullp = rng.choice([0, 0.2, 0.5])
 
     def number():
